@@ -107,7 +107,9 @@ def gen_dataset(rng, force=None):
 def dataset_frame(ds):
     n = sum(ds["sizes"])
     data = {"id": np.arange(n, dtype="int64"), "u": ["r%05d" % i for i in range(n)],
-            "g": np.arange(n, dtype="float64") + 0.5}
+            "g": np.arange(n, dtype="float64") + 0.5,
+            # injective, NOT monotone across row groups (levels built by sorting/merging per-row-group values get re-ordered)
+            "r": (np.arange(n, dtype="int64") * 37 + 11) % 101 - 50}
     df = pd.DataFrame(data)
     if n == 0:
         df["u"] = df["u"].astype(object)
@@ -352,8 +354,32 @@ def apply_ops(pf, ops):
     return pf
 
 
+def multiindex_unusable(df):
+    """a frame whose MultiIndex is not a MultiIndex: level codes that are not positions in the level (raw values stored as codes,
+    levels left at their [None] placeholder).  Looking at .levels / .codes is safe; materialising such an index is not (segfault)."""
+    if not isinstance(df.index, pd.MultiIndex):
+        return None
+    for i, (lev, codes) in enumerate(zip(df.index.levels, df.index.codes)):
+        codes = np.asarray(codes)
+        if len(codes) and len(lev) == 1 and lev[0] is None:
+            return "level %d (%r) was left at its [None] placeholder for %d rows" % (i, df.index.names[i], len(codes))
+        if len(codes) and (codes.max() >= len(lev) or codes.min() < -1):
+            return "level %d (%r): codes up to %d for a level of %d labels" % (i, df.index.names[i], int(codes.max()), len(lev))
+    return None
+
+
 def run_program(pf, prog):
     """-> ('ok', [DataFrame...]) | ('ok', int) | ('fail', errname, message)"""
+    r = _run_program(pf, prog)
+    if r[0] == "ok" and not isinstance(r[1], int):
+        for df in r[1]:
+            bad = multiindex_unusable(df)
+            if bad:
+                return ("fail", "Other:UnusableMultiIndex", "the frame returned has an index that cannot be materialised: " + bad, "")
+    return r
+
+
+def _run_program(pf, prog):
     try:
         h = apply_ops(pf, prog["ops"])
         rd = prog["rd"]
@@ -868,7 +894,10 @@ def classify(ds, base, prog, probs, res):
         comp = "partition-index"
     return {"component": comp, "terminal": rd[0], "what": what, "scheme": ds["scheme"], "partitioned": bool(base["pcols"]),
             "open": ds["open"], "selected_row_groups": nsel, "nonempty_selected": nonempty, "index_names": len(inames),
-            "index_kind": idx["kind"], "index_column_kinds": ikinds, "error": (res[1] if res[0] == "fail" else None), "nops": len(prog["ops"])}
+            "index_kind": idx["kind"], "index_column_kinds": ikinds, "error": (res[1] if res[0] == "fail" else None), "nops": len(prog["ops"]),
+            # exactly what was observed (the open findings match on it, so that another violation in the same area is reported)
+            "outcome": "%s:%s" % (what, res[1] if res[0] == "fail" else "-"), "message": msg[:200],
+            "problem_kinds": sorted(set(p[0] for p in probs))}
 
 
 def run_dataset(job):
@@ -893,9 +922,9 @@ def run_dataset(job):
             progs += confirmation_programs(rng, ds, base) if extra_streams else []
         for prog in progs:
             res = run_program(pf, prog)
-            if prog.get("stream") == "confirm-multi-index" and res[0] == "ok":
-                # a frame whose multi-index was assembled by the real code is not safe to inspect (see the finding)
-                res = ("fail", "Other:Uninspected", "multi-index frame returned; not inspected", "")
+            # (a read with an explicit multi-index that RETURNS a frame is inspected like any other: labels of every level against the
+            #  full read; the levels used are REQUIRED numeric columns - with an optional column as a level the frame cannot be
+            #  inspected safely - and the worker is a forked process: a crash is a reported failure)
             probs = oracle(base, prog, res)
             # a derived handle must not change the handle it was derived from (the next programs use the same `pf`)
             now = [int(rg.num_rows) for rg in pf.row_groups]
@@ -939,10 +968,20 @@ def confirmation_programs(rng, ds, base):
     # two names over REQUIRED numeric columns only: with an optional column as a level the real code stores raw values as
     # level codes and the frame cannot even be inspected safely (segfault seen) - recorded in the finding, not re-run here
     distinct_nonempty = len(set(g[0] for g in base["rgs"] if g[1] > 0))
-    if "id" in base["cols"] and "g" in base["cols"] and distinct_nonempty >= 2:
-        a, b = rng.choice([["id", "g"], ["g", "id"]])
+    keys = [k for k in ("id", "g", "r") if k in base["cols"]]
+    if len(keys) >= 2 and distinct_nonempty >= 2:
+        a, b = rng.sample(keys, 2)
         out.append({"ops": [], "rd": ["to_pandas", None, {"kind": "list", "names": [a, b]}], "stream": "confirm-multi-index"})
         out.append({"ops": [], "rd": ["head", base["total"], ["u"], {"kind": "list", "names": [a, b]}], "stream": "confirm-multi-index"})
+        if len(keys) == 3:
+            out.append({"ops": [gen_slice(rng)], "rd": ["to_pandas", ["u", "t"], {"kind": "list", "names": rng.sample(keys, 3)}], "stream": "confirm-multi-index"})
+    if len(keys) >= 2 and base["rgs"]:
+        # controls: the same explicit multi-index on ONE row group (one dictionary per level: the read returns, and is compared)
+        for j in sorted({0, len(base["rgs"]) - 1, rng.randrange(len(base["rgs"]))}):
+            a, b = rng.sample(keys, 2)
+            out.append({"ops": [["pick", j]], "rd": [rng.choice(["to_pandas", "iter"]), None, {"kind": "list", "names": [a, b]}] , "stream": "multi-index-one-row-group"})
+            if out[-1]["rd"][0] == "iter":
+                out[-1]["rd"].append(None)
     if base["pcols"]:
         p = rng.choice(base["pcols"])
         out.append({"ops": [], "rd": ["to_pandas", None, {"kind": "str", "names": [p]}], "stream": "partition-index"})
